@@ -325,6 +325,7 @@ func (fr *Frame) builtin(st *State, b *ssa.Builtin, c *ssa.CallCommon, args []Va
 			unsupported("append(bytes, string...)")
 		}
 		t := fr.toTerm(args[1]) // a slice (variadic is packed by ssa)
+		fr.curAppendArg = c.Args[1]
 		return fr.appendSlices(st, st0.Elem(), s, t)
 	case "delete":
 		mt := types.Unalias(c.Args[0].Type()).Underlying().(*types.Map)
@@ -371,37 +372,68 @@ func (fr *Frame) toTerm(v Val) Term {
 	return Term{}
 }
 
-// appendSlices models append(s, t...) for a slice t whose length is syntactically
-// known (ssa packs variadic args into a fresh array slice) or symbolic.
+// appendSlices models append(s, t...): when the result fits the capacity the elements are written in place
+// (visible through every slice sharing the backing array), otherwise into a fresh backing array.
 func (fr *Frame) appendSlices(st *State, et types.Type, s, t Term) Term {
 	r := fr.run
 	key := r.eng.heapKeyArr(et)
 	A := r.heapGet(st, key)
 	es := r.eng.u.sortOf(et)
 	as := arraySort("Int", es)
-	// general case: result backing array R with
-	//   R[i] = S[i+off_s]        for 0 <= i < len(s)
-	//   R[len(s)+j] = T[j+off_t] for 0 <= j < len(t)
+	origS := s
 	// pattern-safe names (patterns must not contain ite); define-fun would be expanded, so use constants
 	s = r.constOf(st, "aps", s)
 	t = r.constOf(st, "apt", t)
-	ref := fr.allocFresh(st, et, Term{})
-	R := r.havoc("app", as)
 	ls, lt := app("Int", "sl_len", s), app("Int", "sl_len", t)
+	nl := app("Int", "+", ls, lt)
 	S := r.constOf(st, "apS", sel(A, app("Int", "sl_arr", s)))
 	T := r.constOf(st, "apT", sel(A, app("Int", "sl_arr", t)))
-	i := Term{"i_", "Int"}
-	r.assume(st, Term{fmt.Sprintf("(forall ((i_ Int)) (! (=> (and (<= 0 i_) (< i_ %s)) (= (select %s (sl_ix 0 i_)) (select %s (sl_ix (sl_off %s) i_)))) :pattern ((select %s (sl_ix 0 i_)))))", ls.S, R.S, S.S, s.S, R.S), "Bool"})
-	r.assume(st, Term{fmt.Sprintf("(forall ((i_ Int)) (! (=> (and (<= 0 i_) (< i_ %s)) (= (select %s (sl_ix 0 (+ %s i_))) (select %s (sl_ix (sl_off %s) i_)))) :pattern ((select %s (sl_ix (sl_off %s) i_)))))", lt.S, R.S, ls.S, T.S, t.S, T.S, t.S), "Bool"})
-	// also a directly usable instance for the common single-element append
-	r.assume(st, implies(eq(lt, intLit(1)), eq(sel(R, app("Int", "sl_ix", intLit(0), ls)), sel(T, app("Int", "sl_ix", app("Int", "sl_off", t), intLit(0))))))
-	_ = i
-	r.heapSet(st, key, store(A, ref, R))
-	nl := app("Int", "+", ls, lt)
+	offS, offT := app("Int", "sl_off", s), app("Int", "sl_off", t)
+	// --- fresh case: R[i] = S[off_s+i] (i < len s), R[len s + j] = T[off_t+j] (j < len t)
+	ref := fr.allocFresh(st, et, Term{})
+	R := r.havoc("app", as)
+	r.assume(st, Term{fmt.Sprintf("(forall ((i_ Int)) (! (=> (and (<= 0 i_) (< i_ %s)) (= (select %s (sl_ix 0 i_)) (select %s (sl_ix %s i_)))) :pattern ((select %s (sl_ix 0 i_)))))", ls.S, R.S, S.S, offS.S, R.S), "Bool"})
+	r.assume(st, Term{fmt.Sprintf("(forall ((i_ Int)) (! (=> (and (<= 0 i_) (< i_ %s)) (= (select %s (sl_ix 0 (+ %s i_))) (select %s (sl_ix %s i_)))) :pattern ((select %s (sl_ix %s i_)))))", lt.S, R.S, ls.S, T.S, offT.S, T.S, offT.S), "Bool"})
+	r.assume(st, implies(eq(lt, intLit(1)), eq(sel(R, app("Int", "sl_ix", intLit(0), ls)), sel(T, app("Int", "sl_ix", offT, intLit(0))))))
 	ncap := r.havoc("cap", "Int")
 	r.assume(st, app("Bool", ">=", ncap, nl))
-	res := r.name("appended", app("Slice", "mk_slice", ite(eq(nl, intLit(0)), app("Int", "sl_arr", s), ref), ite(eq(nl, intLit(0)), app("Int", "sl_off", s), intLit(0)), nl, ite(eq(nl, intLit(0)), app("Int", "sl_cap", s), ncap)))
-	r.noteAssume("append always copies into a fresh backing array (aliasing through spare capacity is not modelled)")
-	// (an append of zero elements returns the old slice; writes through the result are then not fresh)
+	r.assume(st, app("Bool", "<=", ncap, Term{"max_alloc", "Int"}))
+	// --- in-place case: P = S with P[off_s+len s+j] = T[off_t+j]
+	var P Term
+	if n, ok := staticSliceLen(fr.curAppendArg); ok && n == 1 {
+		P = store(S, app("Int", "sl_ix", offS, ls), sel(T, app("Int", "sl_ix", offT, intLit(0))))
+	} else if ok && n == 0 {
+		P = S
+	} else {
+		P = r.havoc("apip", as)
+		r.assume(st, Term{fmt.Sprintf("(forall ((i_ Int)) (! (=> (and (<= 0 i_) (< i_ %s)) (= (select %s (sl_ix %s (+ %s i_))) (select %s (sl_ix %s i_)))) :pattern ((select %s (sl_ix %s i_)))))", lt.S, P.S, offS.S, ls.S, T.S, offT.S, T.S, offT.S), "Bool"})
+		r.assume(st, Term{fmt.Sprintf("(forall ((i_ Int)) (! (=> (or (< i_ (+ %s %s)) (>= i_ (+ %s %s))) (= (select %s i_) (select %s i_))) :pattern ((select %s i_))))", offS.S, ls.S, app("Int", "+", offS, ls).S, lt.S, P.S, S.S, P.S), "Bool"})
+	}
+	inplace := r.name("inplace", or(eq(lt, intLit(0)), app("Bool", "<=", nl, app("Int", "sl_cap", s))))
+	r.noteWrite(key, r.arrRefOf(origS))
+	r.heapSet(st, key, ite(inplace, store(A, app("Int", "sl_arr", s), P), store(A, ref, R)))
+	res := r.name("appended", ite(inplace,
+		app("Slice", "mk_slice", app("Int", "sl_arr", s), offS, nl, app("Int", "sl_cap", s)),
+		app("Slice", "mk_slice", ref, intLit(0), nl, ncap)))
+	if a, ok := r.sliceArr[origS.S]; ok && r.sliceArr != nil {
+		// a slice built on an allocation of this function stays on allocations of this function
+		_ = a
+	}
+	r.recordOwned(res, origS)
 	return res
+}
+
+// recordOwned: the result of appending to a slice whose backing array was allocated by this function (or nil)
+// again has a backing array allocated by this function.
+func (r *Run) recordOwned(res, from Term) {
+	if r.sliceArr == nil {
+		r.sliceArr = map[string]string{}
+	}
+	if from.S == "slice_nil" {
+		r.sliceArr[res.S] = "new_own"
+		return
+	}
+	if a, ok := r.sliceArr[from.S]; ok {
+		r.sliceArr[res.S] = a
+	}
 }
